@@ -1,6 +1,601 @@
-//! C17 harnesses (see /verif/kani/README.md for conventions)
+//! C17: radix strings: exact parse, overflow always reported, canonical output.
+//!
+//! Oracle (rustdoc of `Uint::from_str_radix_vartime`, `BoxedUint::from_str_radix_vartime`,
+//! `BoxedUint::from_str_radix_with_precision_vartime`, `to_string_radix_vartime`; tests `from_str_radix_disallowed`):
+//! a *numeral* in radix r is `['+'] d (d | '_')* d | ['+'] d` with d an alphanumeric character whose digit value
+//! (0-9, a-z = A-Z = 10..35) is below r, i.e. underscores only between the first and the last digit. Its value is the
+//! positional value of the digits. `""` and `"+"` are `Empty`; everything else that is not a numeral is `InvalidDigit`.
+//! A numeral that does not fit: `InputSize` (Uint), `InputSize`/`Precision` (BoxedUint with precision).
+//! The rustdoc says "underscore characters to separate digits" and does not say whether a *run* of underscores is a
+//! separator: for such strings (`doubled`) the harnesses accept `InvalidDigit` or the value, nothing else.
+//!
+//! Cost: `radix_decode_str_*` is an outer `while` / inner `loop` / `for` nest over a 64-byte digit buffer; CBMC lays the
+//! post-`break` code inside the inner loop, so with a symbolic string length symbolic execution costs
+//! (unwind bound)^3 slice-iterator steps: the fully symbolic harnesses (every 7-bit byte in every position, symbolic
+//! length) are limited to 2 characters (quick) / 3-4 characters (thorough) and to the radices 2, 4, 16 - the generic
+//! decoder evaluates `Word::MAX.ilog(radix)` in a run-time loop of 12..40 iterations, which forces an unwind bound
+//! that the cubic nest does not survive. Longer strings (crossing 2^64 and 2^128, several digit batches, leading
+//! zeros, separators, either case, every error kind) and the generic radices 3, 7, 10, 35, 36 are covered by
+//! *literal* strings, for which CBMC's constant propagation decides every loop (these are unit tests run through
+//! the model checker; their oracle is the same `classify`, cross-checked against literal values).
+//! Formatting goes through `String::from_utf8` (pointer-alignment dependent loops): only radix 16 / 32 with values
+//! < 2^16 terminate (thorough tier); the round trip follows by composition on the common domain (parse harnesses:
+//! numeral -> value; format harnesses: value -> canonical numeral), it is not checked in one harness.
 use crate::*;
+use crate::util::*;
+use alloc::string::String;
 use crypto_bigint::*;
 
+/// see c16.rs: makes a `#[kani::should_panic]` harness fail unless the call panics for every admitted input
+fn returned_instead_of_panicking() {
+    #[cfg(kani)]
+    unsafe {
+        let p: *const u8 = core::ptr::null();
+        let v = core::ptr::read_volatile(p);
+        core::hint::black_box(v);
+    }
+    #[cfg(not(kani))]
+    crate::src::missed_panic();
+}
+
+/// value of an alphanumeric character as a digit (0..=35), 255 for every other byte
+fn digit_val(c: u8) -> u8 {
+    if c >= b'0' && c <= b'9' { c - b'0' }
+    else if c >= b'a' && c <= b'z' { c - b'a' + 10 }
+    else if c >= b'A' && c <= b'Z' { c - b'A' + 10 }
+    else { 255 }
+}
+
+const EMPTY: u8 = 0;
+const INVALID: u8 = 1;
+const NUMERAL: u8 = 2;
+
+struct Parsed {
+    kind: u8,
+    /// value mod 2^128
+    val: u128,
+    /// the value is >= 2^128
+    big: bool,
+    /// two adjacent underscores occur
+    doubled: bool,
+}
+impl Parsed {
+    /// value < 2^bits
+    fn fits(&self, bits: u32) -> bool { !self.big && (bits >= 128 || (self.val >> bits) == 0) }
+}
+
+/// What the byte string denotes in the given radix (see the module comment). `radix` is a constant at every call site,
+/// so `v * radix` is a multiplication by a constant (a shift for 2, 4, 16).
+fn classify(b: &[u8], radix: u32) -> Parsed {
+    let n = b.len();
+    let mut i = 0;
+    if n > 0 && b[0] == b'+' { i = 1; }
+    if i == n { return Parsed { kind: EMPTY, val: 0, big: false, doubled: false }; }
+    if b[i] == b'_' || b[n - 1] == b'_' { return Parsed { kind: INVALID, val: 0, big: false, doubled: false }; }
+    let mut val: u128 = 0;
+    let mut big = false;
+    let mut ok = true;
+    let mut doubled = false;
+    let mut prev_us = false;
+    while i < n {
+        let c = b[i];
+        if c == b'_' {
+            if prev_us { doubled = true; }
+            prev_us = true;
+        } else {
+            prev_us = false;
+            let d = digit_val(c);
+            if (d as u32) < radix {
+                let (m, o1) = match radix {
+                    2 => (val << 1, (val >> 127) != 0),
+                    4 => (val << 2, (val >> 126) != 0),
+                    16 => (val << 4, (val >> 124) != 0),
+                    r => val.overflowing_mul(r as u128),
+                };
+                let (a, o2) = m.overflowing_add(d as u128);
+                big |= o1 | o2;
+                val = a;
+            } else {
+                ok = false;
+            }
+        }
+        i += 1;
+    }
+    Parsed { kind: if ok { NUMERAL } else { INVALID }, val, big, doubled }
+}
+
+fn all_ascii(b: &[u8]) -> bool {
+    let mut ok = true;
+    let mut i = 0;
+    while i < b.len() { ok &= b[i] < 0x80; i += 1; }
+    ok
+}
+
+fn is_empty_err<T>(r: &Result<T, DecodeError>) -> bool { matches!(r, Err(DecodeError::Empty)) }
+fn is_invalid<T>(r: &Result<T, DecodeError>) -> bool { matches!(r, Err(DecodeError::InvalidDigit)) }
+fn is_input_size<T>(r: &Result<T, DecodeError>) -> bool { matches!(r, Err(DecodeError::InputSize)) }
+fn is_precision<T>(r: &Result<T, DecodeError>) -> bool { matches!(r, Err(DecodeError::Precision)) }
+
+/// `Uint::<1>::from_str_radix_vartime(b, radix)` against the oracle
+pub fn u64_case<S: Src>(s: &mut S, b: &[u8], radix: u32) {
+    let st = unsafe { core::str::from_utf8_unchecked(b) };
+    let res = U64::from_str_radix_vartime(st, radix);
+    let p = classify(b, radix);
+    if p.kind == EMPTY { assert!(is_empty_err(&res)); return; }
+    if p.kind == INVALID { assert!(is_invalid(&res)); return; }
+    let fits = p.fits(64);
+    if p.doubled { if is_invalid(&res) { return; } }
+    if fits {
+        match res { Ok(v) => assert!(u64_of(&v) == p.val as u64), Err(_) => assert!(false, "numeral rejected") }
+    } else {
+        assert!(is_input_size(&res));
+    }
+}
+
+/// `Uint::<2>::from_str_radix_vartime(b, radix)` against the oracle
+pub fn u128_case<S: Src>(s: &mut S, b: &[u8], radix: u32) {
+    let st = unsafe { core::str::from_utf8_unchecked(b) };
+    let res = U128::from_str_radix_vartime(st, radix);
+    let p = classify(b, radix);
+    if p.kind == EMPTY { assert!(is_empty_err(&res)); return; }
+    if p.kind == INVALID { assert!(is_invalid(&res)); return; }
+    if p.doubled { if is_invalid(&res) { return; } }
+    if p.fits(128) {
+        match res { Ok(v) => assert!(u128_of(&v) == p.val), Err(_) => assert!(false, "numeral rejected") }
+    } else {
+        assert!(is_input_size(&res));
+    }
+}
+
+/// the limbs of `v` are exactly the value `val` (< 2^128): at least one limb, everything above 128 bits zero
+fn boxed_is(v: &BoxedUint, val: u128) -> bool {
+    let w = v.as_words();
+    let n = w.len();
+    if n == 0 { return false; }
+    let mut ok = w[0] == val as u64;
+    if n >= 2 { ok &= w[1] == (val >> 64) as u64; } else { ok &= (val >> 64) == 0; }
+    let mut i = 2;
+    while i < n { ok &= w[i] == 0; i += 1; }
+    ok
+}
+
+/// `BoxedUint::from_str_radix_vartime(b, radix)`: never a size error (the value must be < 2^128 here)
+pub fn boxed_case<S: Src>(s: &mut S, b: &[u8], radix: u32) {
+    let st = unsafe { core::str::from_utf8_unchecked(b) };
+    let res = BoxedUint::from_str_radix_vartime(st, radix);
+    let p = classify(b, radix);
+    if p.kind == EMPTY { assert!(is_empty_err(&res)); return; }
+    if p.kind == INVALID { assert!(is_invalid(&res)); return; }
+    if p.doubled { if is_invalid(&res) { return; } }
+    assert!(!p.big);
+    match res { Ok(v) => assert!(boxed_is(&v, p.val)), Err(_) => assert!(false, "numeral rejected") }
+}
+
+/// `BoxedUint::from_str_radix_with_precision_vartime(b, radix, precision)`, precision <= 128:
+/// a numeral >= 2^precision is an error (`Precision` when it still fits the allocated limbs, `InputSize` or `Precision`
+/// when it does not); otherwise the value with `bits_precision()` = precision rounded up to 64 (64 for precision 0)
+pub fn boxed_prec_case<S: Src>(s: &mut S, b: &[u8], radix: u32, precision: u32) {
+    let st = unsafe { core::str::from_utf8_unchecked(b) };
+    let res = BoxedUint::from_str_radix_with_precision_vartime(st, radix, precision);
+    let p = classify(b, radix);
+    if p.kind == EMPTY { assert!(is_empty_err(&res)); return; }
+    if p.kind == INVALID { assert!(is_invalid(&res)); return; }
+    if p.doubled { if is_invalid(&res) { return; } }
+    let limbs: u32 = if precision <= 64 { 1 } else { 2 };
+    if !p.fits(64 * limbs) { assert!(is_input_size(&res) || is_precision(&res)); return; }
+    if !p.fits(precision) { assert!(is_precision(&res)); return; }
+    match res {
+        Ok(v) => { assert!(v.bits_precision() == 64 * limbs); assert!(boxed_is(&v, p.val)); }
+        Err(_) => assert!(false, "numeral rejected"),
+    }
+}
+
+/// a string of `len <= N` arbitrary 7-bit bytes
+fn draw_ascii<S: Src, const N: usize>(s: &mut S) -> ([u8; N], usize) {
+    let buf: [u8; N] = s.bytes();
+    s.assume(all_ascii(&buf));
+    let len = s.usize();
+    s.assume(len <= N);
+    (buf, len)
+}
+
+/// canonical numeral of `v` in a power-of-two radix (2^shift): lowercase, no leading zeros, "0" for zero
+fn canonical_pow2(out: &[u8], v: u64, shift: u32) -> bool {
+    let bits = 64 - v.leading_zeros();
+    let n = if v == 0 { 1 } else { ((bits + shift - 1) / shift) as usize };
+    if out.len() != n { return false; }
+    let mut ok = true;
+    let mut i = 0;
+    while i < n {
+        let d = ((v >> (shift * (n - 1 - i) as u32)) & ((1u64 << shift) - 1)) as u8;
+        let c = if d < 10 { b'0' + d } else { b'a' + d - 10 };
+        ok &= out[i] == c;
+        i += 1;
+    }
+    ok
+}
+
+/// canonical numeral of `v` in any radix 2..=36, by repeated division of the *concrete* value
+fn canonical(out: &[u8], v: u128, radix: u32) -> bool {
+    let mut tmp = [0u8; 128];
+    let mut n = 0;
+    let mut x = v;
+    loop {
+        let d = (x % radix as u128) as u8;
+        tmp[n] = if d < 10 { b'0' + d } else { b'a' + d - 10 };
+        n += 1;
+        x /= radix as u128;
+        if x == 0 { break; }
+    }
+    if out.len() != n { return false; }
+    let mut ok = true;
+    let mut i = 0;
+    while i < n { ok &= out[i] == tmp[n - 1 - i]; i += 1; }
+    ok
+}
+
+macro_rules! each {
+    ($i:ident in [$($n:expr),*] $body:block) => { $( { let $i = $n; $body } )* };
+}
+
 harnesses! {
+    // ------------------------------------------------------------------ fully symbolic short strings (aligned radices)
+
+    /// U64, radix 16: every string of <= 2 seven-bit bytes
+    #[kani::unwind(4)]
+    fn c17_u64_r16_len2(s) {
+        let (buf, len) = draw_ascii::<_, 2>(s);
+        s.cover(len == 2 && buf[0] == b'+' && buf[1] == b'F');
+        u64_case(s, &buf[..len], 16);
+    }
+    /// U64, radix 2: every string of <= 2 seven-bit bytes
+    #[kani::unwind(4)]
+    fn c17_u64_r2_len2(s) {
+        let (buf, len) = draw_ascii::<_, 2>(s);
+        s.cover(len == 2 && buf[0] == b'1' && buf[1] == b'0');
+        u64_case(s, &buf[..len], 2);
+    }
+    /// U64, radix 4: every string of <= 2 seven-bit bytes
+    #[kani::unwind(4)]
+    fn c17_u64_r4_len2(s) {
+        let (buf, len) = draw_ascii::<_, 2>(s);
+        s.cover(len == 2 && buf[0] == b'3' && buf[1] == b'0');
+        u64_case(s, &buf[..len], 4);
+    }
+    /// U128, radix 16: every string of <= 2 seven-bit bytes
+    #[kani::unwind(4)]
+    fn c17_u128_r16_len2(s) {
+        let (buf, len) = draw_ascii::<_, 2>(s);
+        s.cover(len == 2);
+        u128_case(s, &buf[..len], 16);
+    }
+    /// BoxedUint::from_str_radix_with_precision_vartime, radix 16, precision 3 (values 8..=15 are too large):
+    /// every string of <= 1 seven-bit byte
+    #[kani::unwind(3)]
+    fn c17_boxed_prec3_r16_len1(s) {
+        let (buf, len) = draw_ascii::<_, 1>(s);
+        s.cover(len == 1 && buf[0] == b'8');
+        boxed_prec_case(s, &buf[..len], 16, 3);
+    }
+    /// BoxedUint::from_str_radix_with_precision_vartime, radix 16, precision 5 (values 0x20..=0xff are too large)
+    #[kani::unwind(4)]
+    fn c17t_boxed_prec5_r16_len2(s) {
+        let (buf, len) = draw_ascii::<_, 2>(s);
+        s.cover(len == 2 && buf[0] == b'2' && buf[1] == b'0');
+        boxed_prec_case(s, &buf[..len], 16, 5);
+    }
+    /// BoxedUint::from_str_radix_with_precision_vartime, radix 4, precision 0 (every non-zero value is too large)
+    #[kani::unwind(4)]
+    fn c17t_boxed_prec0_r4_len2(s) {
+        let (buf, len) = draw_ascii::<_, 2>(s);
+        s.cover(len == 2 && buf[0] == b'0' && buf[1] == b'0');
+        boxed_prec_case(s, &buf[..len], 4, 0);
+    }
+    /// BoxedUint::from_str_radix_with_precision_vartime, radix 2, precision 65 (two limbs)
+    #[kani::unwind(4)]
+    fn c17t_boxed_prec65_r2_len2(s) {
+        let (buf, len) = draw_ascii::<_, 2>(s);
+        s.cover(len == 2);
+        boxed_prec_case(s, &buf[..len], 2, 65);
+    }
+
+    // ------------------------------------------------------------------ thorough: 3 and 4 characters
+
+    /// U64, radix 16: every string of <= 3 seven-bit bytes
+    #[kani::unwind(5)]
+    fn c17t_u64_r16_len3(s) {
+        let (buf, len) = draw_ascii::<_, 3>(s);
+        s.cover(len == 3 && buf[1] == b'_');
+        u64_case(s, &buf[..len], 16);
+    }
+    /// U64, radix 16: every string of <= 4 seven-bit bytes
+    #[kani::unwind(6)]
+    fn c17t_u64_r16_len4(s) {
+        let (buf, len) = draw_ascii::<_, 4>(s);
+        s.cover(len == 4 && buf[1] == b'_' && buf[2] == b'_');
+        u64_case(s, &buf[..len], 16);
+    }
+    /// U64, radix 2: every string of <= 4 seven-bit bytes
+    #[kani::unwind(6)]
+    fn c17t_u64_r2_len4(s) {
+        let (buf, len) = draw_ascii::<_, 4>(s);
+        s.cover(len == 4);
+        u64_case(s, &buf[..len], 2);
+    }
+    /// U64, radix 4: every string of <= 3 seven-bit bytes
+    #[kani::unwind(5)]
+    fn c17t_u64_r4_len3(s) {
+        let (buf, len) = draw_ascii::<_, 3>(s);
+        s.cover(len == 3);
+        u64_case(s, &buf[..len], 4);
+    }
+    /// BoxedUint with precision 3, radix 2: every string of <= 4 seven-bit bytes
+    #[kani::unwind(6)]
+    fn c17t_boxed_prec3_r2_len4(s) {
+        let (buf, len) = draw_ascii::<_, 4>(s);
+        s.cover(len == 4);
+        boxed_prec_case(s, &buf[..len], 2, 3);
+    }
+
+    // ------------------------------------------------------------------ long concrete strings (concrete control flow)
+    // (literal strings only: a buffer assembled at run time, or a numeral whose digits all get stripped - "0", "+00" -
+    //  with a large unwind bound, makes CBMC lose the concrete slice lengths and unwind the decoder nest to the bound)
+
+    /// U64, radix 16: concrete strings around 2^64 (MAX, 2^64, leading zeros, separators, '+', either case, bad
+    /// digit, trailing separator), oracle cross-checked against literal values
+    #[kani::unwind(48)]
+    fn c17_u64_r16_boundary_concrete(s) {
+        assert!(classify(b"ffffffffffffffff", 16).val == u64::MAX as u128);
+        u64_case(s, b"ffffffffffffffff", 16);
+        assert!(classify(b"+00_0FFFFFFFF_ffffffff", 16).val == u64::MAX as u128);
+        u64_case(s, b"+00_0FFFFFFFF_ffffffff", 16);
+        assert!(!classify(b"10000000000000000", 16).fits(64));
+        u64_case(s, b"10000000000000000", 16);
+        u64_case(s, b"000000000000000000001_0000000000000000", 16);
+        assert!(classify(b"000000000000000000008000000000000000", 16).val == 1u128 << 63);
+        u64_case(s, b"000000000000000000008000000000000000", 16);
+        u64_case(s, b"g000000000000000", 16);
+        u64_case(s, b"1000000000000000_", 16);
+        u64_case(s, b"1__0", 16);
+        u64_case(s, b"fedcba9876543210f", 16);
+    }
+    /// U64, radix 4 and 2: concrete strings around 2^64
+    #[kani::unwind(72)]
+    fn c17_u64_r4_r2_boundary_concrete(s) {
+        assert!(classify(b"33333333333333333333333333333333", 4).val == u64::MAX as u128);
+        u64_case(s, b"33333333333333333333333333333333", 4);
+        assert!(!classify(b"100000000000000000000000000000000", 4).fits(64));
+        u64_case(s, b"100000000000000000000000000000000", 4);
+        assert!(classify(b"0_0_3_3_3_3_3_3_3_3_3_3_3_3_3_3_3_3_3_3_3_3_3_3_3_3_3_3_3_3_3_3_3_3", 4).val == u64::MAX as u128);
+        u64_case(s, b"0_0_3_3_3_3_3_3_3_3_3_3_3_3_3_3_3_3_3_3_3_3_3_3_3_3_3_3_3_3_3_3_3_3", 4);
+        assert!(classify(b"1111111111111111111111111111111111111111111111111111111111111111", 2).val == u64::MAX as u128);
+        u64_case(s, b"1111111111111111111111111111111111111111111111111111111111111111", 2);
+        assert!(!classify(b"10000000000000000000000000000000000000000000000000000000000000000", 2).fits(64));
+        u64_case(s, b"10000000000000000000000000000000000000000000000000000000000000000", 2);
+        assert!(classify(b"+01000000000000000000000000000000000000000000000000000000000000000", 2).val == 1u128 << 63);
+        u64_case(s, b"+01000000000000000000000000000000000000000000000000000000000000000", 2);
+        u64_case(s, b"2000", 2);
+        u64_case(s, b"1234", 4);
+    }
+    /// U128, radix 16: concrete strings around 2^128 and 2^64
+    #[kani::unwind(72)]
+    fn c17_u128_r16_boundary_concrete(s) {
+        assert!(classify(b"ffffffffffffffffffffffffffffffff", 16).val == u128::MAX);
+        u128_case(s, b"ffffffffffffffffffffffffffffffff", 16);
+        assert!(classify(b"100000000000000000000000000000000", 16).big);
+        u128_case(s, b"100000000000000000000000000000000", 16);
+        assert!(classify(b"000_10000000000000000", 16).val == 1u128 << 64);
+        u128_case(s, b"000_10000000000000000", 16);
+        u128_case(s, b"+000000000000000000000000000000AbAbAbAbAbAbAbAbAbAbAbAbAbAbAbAb", 16);
+        assert!(classify(b"fedcba9876543210FEDCBA9876543210", 16).val == 0xfedcba9876543210FEDCBA9876543210u128);
+        u128_case(s, b"fedcba9876543210FEDCBA9876543210", 16);
+    }
+    /// BoxedUint::from_str_radix_vartime (growing Vec), radix 16: every string of <= 1 seven-bit byte
+    /// ("0" must give a one-limb zero)
+    #[kani::unwind(3)]
+    fn c17t_boxed_r16_len1(s) {
+        let (buf, len) = draw_ascii::<_, 1>(s);
+        s.cover(len == 1 && buf[0] == b'0');
+        boxed_case(s, &buf[..len], 16);
+    }
+    /// BoxedUint::from_str_radix_vartime (growing Vec), radix 16: concrete strings of 2, 16 and 17 digits and the
+    /// error cases
+    #[kani::unwind(24)]
+    fn c17_boxed_r16_concrete(s) {
+        boxed_case(s, b"", 16);
+        boxed_case(s, b"_1", 16);
+        boxed_case(s, b"1g", 16);
+        boxed_case(s, b"7F", 16);
+        boxed_case(s, b"ffffffffffffffff", 16);
+        assert!(classify(b"10000000000000000", 16).val == 1u128 << 64);
+        boxed_case(s, b"10000000000000000", 16);
+    }
+    /// BoxedUint::from_str_radix_vartime (growing Vec), radix 16 / 2: 32 digits with leading zeros and separators,
+    /// 65 binary digits, trailing separator
+    #[kani::unwind(72)]
+    fn c17t_boxed_aligned_concrete(s) {
+        boxed_case(s, b"1_", 16);
+        assert!(classify(b"0_0_0_ffffffffffffffffffffffffffffffff", 16).val == u128::MAX);
+        boxed_case(s, b"0_0_0_ffffffffffffffffffffffffffffffff", 16);
+        assert!(classify(b"11111111111111111111111111111111111111111111111111111111111111111", 2).val == (1u128 << 65) - 1);
+        boxed_case(s, b"11111111111111111111111111111111111111111111111111111111111111111", 2);
+    }
+    /// BoxedUint::from_str_radix_with_precision_vartime, radix 16: concrete strings against precision 63, 64, 65, 68,
+    /// 127, 128 (value one too large for the limbs: InputSize/Precision; for the precision only: Precision)
+    #[kani::unwind(48)]
+    fn c17_boxed_prec_aligned_concrete(s) {
+        boxed_prec_case(s, b"ffffffffffffffff", 16, 64);
+        boxed_prec_case(s, b"ffffffffffffffff", 16, 63);
+        boxed_prec_case(s, b"10000000000000000", 16, 64);
+        boxed_prec_case(s, b"10000000000000000", 16, 65);
+        boxed_prec_case(s, b"20000000000000000", 16, 65);
+        boxed_prec_case(s, b"20000000000000000", 16, 68);
+        boxed_prec_case(s, b"00ffffffffffffffffffffffffffffffff", 16, 128);
+        boxed_prec_case(s, b"00ffffffffffffffffffffffffffffffff", 16, 127);
+        boxed_prec_case(s, b"100000000000000000000000000000000", 16, 128);
+        boxed_prec_case(s, b"1", 16, 0);
+    }
+
+    // ------------------------------------------------------------------ generic path (radix not 2, 4, 16)
+    // `Word::MAX.ilog(radix)` is a run-time loop of 12 (radix 36) to 40 (radix 3) iterations, so these harnesses need
+    // an unwind bound > 13; with such a bound a symbolic string length makes the decoder nest explode, hence concrete
+    // strings only (and no zero-valued numerals, see above).
+
+    /// U64, radix 10: concrete strings around 2^64 (two digit batches), around 10^19 (batch boundary), leading zeros,
+    /// separators, bad digits, empty
+    #[kani::unwind(48)]
+    fn c17_u64_r10_concrete(s) {
+        assert!(classify(b"18446744073709551615", 10).val == u64::MAX as u128);
+        u64_case(s, b"18446744073709551615", 10);
+        assert!(!classify(b"18446744073709551616", 10).fits(64));
+        u64_case(s, b"18446744073709551616", 10);
+        u64_case(s, b"+0018_446_744_073_709_551_615", 10);
+        u64_case(s, b"00018446744073709551616", 10);
+        u64_case(s, b"99999999999999999999", 10);
+        u64_case(s, b"9999999999999999999", 10);
+        u64_case(s, b"10000000000000000000", 10);
+        u64_case(s, b"99999999999999999999999999999999", 10);
+        u64_case(s, b"", 10);
+        u64_case(s, b"_", 10);
+        u64_case(s, b"0_", 10);
+        u64_case(s, b"a", 10);
+        u64_case(s, b".", 10);
+        u64_case(s, b"1844674407370955161a", 10);
+        u64_case(s, b"1__2", 10);
+        u64_case(s, b"7", 10);
+    }
+    /// U128, radix 10: concrete strings around 2^128 (three digit batches)
+    #[kani::unwind(64)]
+    fn c17_u128_r10_concrete(s) {
+        u128_case(s, b"+340_282_366_920_938_463_463_374_607_431_768_211_455", 10);
+        assert!(classify(b"340282366920938463463374607431768211455", 10).val == u128::MAX);
+        u128_case(s, b"340282366920938463463374607431768211455", 10);
+        u128_case(s, b"340282366920938463463374607431768211456", 10);
+        assert!(classify(b"340282366920938463463374607431768211456", 10).big);
+        u128_case(s, b"0340282366920938463463374607431768211456", 10);
+        u128_case(s, b"18446744073709551616", 10);
+        u128_case(s, b"999999999999999999999999999999999999999", 10);
+    }
+    /// U64, radix 36 / 3 / 7 / 35: concrete strings around 2^64 in either letter case, digit = radix rejected
+    #[kani::unwind(48)]
+    fn c17_u64_other_radix_concrete(s) {
+        assert!(classify(b"3w5e11264sgsf", 36).val == u64::MAX as u128);
+        u64_case(s, b"3w5e11264sgsf", 36);
+        assert!(!classify(b"3W5E11264SGSG", 36).fits(64));
+        u64_case(s, b"3W5E11264SGSG", 36);
+        u64_case(s, b"zzzzzzzzzzzz", 36);
+        u64_case(s, b"1000000000000", 36);
+        u64_case(s, b"Zz_zZ", 36);
+        assert!(classify(b"11112220022122120101211020120210210211220", 3).val == u64::MAX as u128);
+        u64_case(s, b"11112220022122120101211020120210210211220", 3);
+        u64_case(s, b"11112220022122120101211020120210210211221", 3);
+        assert!(classify(b"45012021522523134134601", 7).val == u64::MAX as u128);
+        u64_case(s, b"45012021522523134134601", 7);
+        u64_case(s, b"45012021522523134134602", 7);
+        u64_case(s, b"3", 3);
+        u64_case(s, b"y", 35);
+        u64_case(s, b"z", 35);
+    }
+    /// BoxedUint::from_str_radix_vartime / with_precision, radix 10: concrete strings of one, two and three batches
+    #[kani::unwind(64)]
+    fn c17_boxed_r10_concrete(s) {
+        boxed_case(s, b"", 10);
+        boxed_case(s, b"12_345", 10);
+        boxed_case(s, b"18446744073709551615", 10);
+        boxed_case(s, b"18446744073709551616", 10);
+        boxed_case(s, b"340282366920938463463374607431768211455", 10);
+        boxed_case(s, b"12x", 10);
+    }
+    /// BoxedUint::from_str_radix_with_precision_vartime, radix 10: concrete strings against precision 8, 64, 65, 128
+    #[kani::unwind(64)]
+    fn c17_boxed_prec_r10_concrete(s) {
+        boxed_prec_case(s, b"18446744073709551615", 10, 64);
+        boxed_prec_case(s, b"18446744073709551616", 10, 64);
+        boxed_prec_case(s, b"18446744073709551616", 10, 65);
+        boxed_prec_case(s, b"36893488147419103232", 10, 65);
+        boxed_prec_case(s, b"340282366920938463463374607431768211455", 10, 128);
+        boxed_prec_case(s, b"340282366920938463463374607431768211456", 10, 128);
+        boxed_prec_case(s, b"255", 10, 8);
+        boxed_prec_case(s, b"256", 10, 8);
+    }
+
+    // ------------------------------------------------------------------ radix out of range
+
+    /// Uint::from_str_radix_vartime panics for every radix outside 2..=36
+    #[kani::should_panic]
+    #[kani::unwind(4)]
+    fn c17_parse_bad_radix_panics(s) {
+        let r = s.u32();
+        s.assume(r < 2 || r > 36);
+        let _ = U64::from_str_radix_vartime("1", r);
+        returned_instead_of_panicking();
+    }
+    /// BoxedUint::from_str_radix_vartime panics for every radix outside 2..=36
+    #[kani::should_panic]
+    #[kani::unwind(4)]
+    fn c17_boxed_parse_bad_radix_panics(s) {
+        let r = s.u32();
+        s.assume(r < 2 || r > 36);
+        let _ = BoxedUint::from_str_radix_vartime("1", r);
+        returned_instead_of_panicking();
+    }
+    /// BoxedUint::from_str_radix_with_precision_vartime panics for every radix outside 2..=36
+    #[kani::should_panic]
+    #[kani::unwind(4)]
+    fn c17_boxed_prec_parse_bad_radix_panics(s) {
+        let r = s.u32();
+        s.assume(r < 2 || r > 36);
+        let _ = BoxedUint::from_str_radix_with_precision_vartime("1", r, 64);
+        returned_instead_of_panicking();
+    }
+    /// Uint::to_string_radix_vartime panics for radix 0, 1, 37, u32::MAX (concrete radices, any value: a symbolic radix
+    /// makes CBMC explore the whole encoder)
+    #[kani::should_panic]
+    #[kani::unwind(4)]
+    fn c17_format_radix0_panics(s) { let _ = mk64(s.u64()).to_string_radix_vartime(0); returned_instead_of_panicking(); }
+    #[kani::should_panic]
+    #[kani::unwind(4)]
+    fn c17_format_radix1_panics(s) { let _ = mk64(s.u64()).to_string_radix_vartime(1); returned_instead_of_panicking(); }
+    #[kani::should_panic]
+    #[kani::unwind(4)]
+    fn c17_format_radix37_panics(s) { let _ = mk64(s.u64()).to_string_radix_vartime(37); returned_instead_of_panicking(); }
+    #[kani::should_panic]
+    #[kani::unwind(4)]
+    fn c17_format_radix_max_panics(s) { let _ = mk128(s.u128()).to_string_radix_vartime(u32::MAX); returned_instead_of_panicking(); }
+    /// BoxedUint::to_string_radix_vartime panics for radix 1, 37
+    #[kani::should_panic]
+    #[kani::unwind(4)]
+    fn c17_boxed_format_radix1_panics(s) { let _ = BoxedUint::from(s.u64()).to_string_radix_vartime(1); returned_instead_of_panicking(); }
+    #[kani::should_panic]
+    #[kani::unwind(4)]
+    fn c17_boxed_format_radix37_panics(s) { let _ = BoxedUint::from(s.u64()).to_string_radix_vartime(37); returned_instead_of_panicking(); }
+
+    // ------------------------------------------------------------------ formatting
+
+    /// U64::to_string_radix_vartime(16) is the canonical numeral (lowercase, no leading zeros, "0" for zero),
+    /// all values < 2^16
+    #[kani::unwind(18)]
+    fn c17t_format_u64_r16(s) {
+        let v = s.u64();
+        s.assume(v < (1 << 16));
+        let out = mk64(v).to_string_radix_vartime(16);
+        assert!(canonical_pow2(out.as_bytes(), v, 4));
+    }
+    /// U64::to_string_radix_vartime(32) is the canonical numeral, all values < 2^16
+    #[kani::unwind(18)]
+    fn c17t_format_u64_r32(s) {
+        let v = s.u64();
+        s.assume(v < (1 << 16));
+        let out = mk64(v).to_string_radix_vartime(32);
+        assert!(canonical_pow2(out.as_bytes(), v, 5));
+    }
+    /// BoxedUint::to_string_radix_vartime(16) is the canonical numeral, one limb, all values < 2^16
+    #[kani::unwind(18)]
+    fn c17t_format_boxed_r16(s) {
+        let v = s.u64();
+        s.assume(v < (1 << 16));
+        let out = BoxedUint::from(v).to_string_radix_vartime(16);
+        assert!(canonical_pow2(out.as_bytes(), v, 4));
+    }
+
 }
